@@ -206,6 +206,31 @@ theorem c36_precedence (p : Params) (fs : FileSystem) (o : Options) (env : EnvMa
   let ⟨e, path, c, h1, h2, h3, h4, _⟩ := merge_ok p fs o env r h
   ⟨e, path, c, h1, h2, h3, fun f => orDefaults_fieldSpec p _ e c r h4 f⟩
 
+/-- The predicate is not weak: it determines every option-valued field and every switch of the
+result (and, by `c36_hidden_union`, the members of `hidden`). -/
+theorem c36_spec_determines (p : Params) (fl en cf r r' : Settings)
+    (h : ∀ f, fieldSpec p fl en cf r f = true) (h' : ∀ f, fieldSpec p fl en cf r' f = true)
+    (f : Field) (hf : f.kind ≠ .set) : r.get f = r'.get f := by
+  have hc : r.chain = r'.chain := by
+    have a := h .chain; have b := h' .chain
+    simp only [fieldSpec, Field.kind, Settings.getOpt, Settings.get, defaultOf, beq_iff_eq] at a b
+    exact map_chain_inj (a.trans b.symm)
+  have hb : r.bitcoinDataDir = r'.bitcoinDataDir := by
+    have a := h .bitcoinDataDir; have b := h' .bitcoinDataDir
+    simp only [fieldSpec, Field.kind, Settings.getOpt, Settings.get, defaultOf, beq_iff_eq] at a b
+    exact map_text_inj (a.trans b.symm)
+  have hd : r.dataDir = r'.dataDir := by
+    have a := h .dataDir; have b := h' .dataDir
+    simp only [fieldSpec, Field.kind, beq_iff_eq] at a b
+    rw [a, b, hc]
+  have a := h f; have b := h' f
+  cases f <;> simp [Field.kind] at hf <;>
+    simp only [fieldSpec, Field.kind, Settings.getOpt, Settings.getSwitch, Settings.get, defaultOf, beq_iff_eq, hc, hb, hd] at a b ⊢ <;>
+    first
+      | exact congrArg _ (a.trans b.symm)
+      | (rw [a, b])
+      | skip
+
 /-- fields whose winning value is passed through unchanged (all option-valued fields except the
 two consumed by `merge` and `data_dir`, which gets the chain directory appended) -/
 def Field.plain (f : Field) : Bool :=
@@ -326,12 +351,48 @@ example : ∃ r, merge exParams exFs exOpts exEnv = .ok r ∧ r.chain = some .re
   refine ⟨_, rfl, ?_⟩
   decide
 
+/-- the result of the example merge, for the examples below -/
+def exResult : Settings := match merge exParams exFs exOpts exEnv with | .ok r => r | .error _ => {}
+def exEnvSettings : Settings := match fromEnv exEnv with | .ok e => e | .error _ => {}
+
+-- hypotheses of `c36_precedence` and of its corollaries are met by the example, non-trivially:
+example : merge exParams exFs exOpts exEnv = .ok exResult := rfl
+example : ∀ f ∈ Field.all, fieldSpec exParams (fromOptions exOpts) exEnvSettings exFile exResult f = true := by decide
+-- a flag wins (`chain`), the environment wins (`commit_interval`), the file wins … nothing here; a default is used
+example : (fromOptions exOpts).getOpt .chain = some (.chain .regtest) ∧ exEnvSettings.getOpt .chain = some (.chain .testnet) ∧
+    exFile.getOpt .chain = some (.chain .signet) ∧ exResult.getOpt .chain = some (.chain .regtest) := by decide
+example : (fromOptions exOpts).getOpt .commitInterval = none ∧ exEnvSettings.getOpt .commitInterval = some (.num 9) ∧
+    exFile.getOpt .commitInterval = some (.num 7) ∧ exResult.getOpt .commitInterval = some (.num 9) := by decide
+example : exResult.getOpt .bitcoinRpcUrl = some (.text "127.0.0.1:18443") ∧
+    exResult.getOpt .cookieFile = some (.text "/h/.bitcoin/regtest/.cookie") ∧
+    exResult.getOpt .dataDir = some (.text "/h/.local/share/ord/regtest") ∧
+    exResult.getOpt .index = some (.text "/h/.local/share/ord/regtest/index.redb") := by decide
+-- the file wins when neither flag nor variable is given
+example : ∃ r, merge exParams exFs { config := some "/c.yaml" } (fun _ => none) = .ok r ∧
+    r.chain = some .signet ∧ r.commitInterval = some 7 ∧ r.bitcoinRpcUrl = some "127.0.0.1:38332" :=
+  ⟨_, rfl, by decide⟩
+-- hidden: union of environment and file, duplicates irrelevant
+def idA : InscriptionId := ⟨"aa", 0⟩
+def idB : InscriptionId := ⟨"bb", 1⟩
+example : fieldSpec exParams {} { hidden := some [idA] } { hidden := some [idB, idA] }
+    { hidden := some [idA, idB, idA] } .hidden = true := by decide
+example : fieldSpec exParams {} { hidden := some [idA] } { hidden := some [idB, idA] }
+    { hidden := some [idA] } .hidden = false := by decide
+-- config lookup route: `ORD_CONFIG_DIR` is searched before `--data-dir`
+example : configPath exParams (fun p => if p = "/e/ord.yaml" ∨ p = "/d/ord.yaml" then .ok {} else .absent)
+    (Settings.or { dataDir := some "/d" } { configDir := some "/e" }) = .ok (some "/e/ord.yaml") := by rfl
+-- `Settings::load` only looks at `ORD_`-prefixed variables (the last assignment counts)
+example : loadEnv [("ORD_CHAIN", "signet"), ("ORDX_CHAIN", "regtest"), ("HOME", "/h"), ("ORD_CHAIN", "testnet4")] "CHAIN"
+    = some "testnet4" := by decide
+example : loadEnv [("ORDX_CHAIN", "regtest"), ("ord_CHAIN", "regtest")] "CHAIN" = none := by decide
 example : (Field.all.filter Field.plain).length = 17 := by decide
-example : c36_gen_or_table.1 = c36_gen_or_table.1 := rfl
 example : G.orTable.length = 27 ∧ (G.orTable.filter (·.2.1 = .boolOr)).length = 6 ∧
     (G.orTable.filter (·.2.1 = .setUnion)).length = 1 := by decide
 example : fromEnv (fun k => if k = "HTTP_PORT" then some "65536" else none) = .error (.envParse "HTTP_PORT") := by
   rfl
+-- a malformed variable blocks the merge although the flag would override it
+example : merge exParams exFs { exOpts with commitInterval := some 3 }
+    (fun k => if k = "COMMIT_INTERVAL" then some "x" else none) = .error (.envParse "COMMIT_INTERVAL") := by rfl
 
 end Examples
 
